@@ -103,6 +103,8 @@ def gen_requests():
             c6 = ",C06" if kind == "read" else ""  # only the four read constructors are reached from the request builder
             if kind == "fc15":
                 c6 = ",C11"  # C11: every pattern of 1..1968 coils can be written (and read back)
+            if kind == "read" and fc in (1, 2):
+                c6 = ",C06,C11"  # C11: ... and read back: every coil range up to address 65535 can be requested
             cl = [f"safety[C01{c6}]", "modifies[C01] nothing"]
             if kind == "fc16":
                 cl.append("alias res.Data := data if err == nil")
@@ -255,7 +257,7 @@ def gen_request_dispatchers():
     emit("// ---- request dispatchers ----", "")
     for disp, fr, rtype in (("ParseTCPRequest", "TCP", "Request"), ("ParseRTURequest", "RTU", "Request"), ("ParseRTURequestWithCRC", "RTU", "Response")):
         o = 6 if fr == "TCP" else 0
-        cl = ["safety[C10,C16,C18]", "noOverread[C10]", "modifies[C10] nothing", "ensures[C10] err != nil ==> nilish(res)"]
+        cl = ["safety[C10,C16,C18]", "noOverread[C10]", "modifies[C10] nothing", "ensures[C10] err != nil ==> nilish(res)", "ensures[C10.valueorerror] err == nil ==> !nilish(res)"]
         crc = disp.endswith("WithCRC")
         if crc:
             cl.append("ensures[C03] len(data) >= 4 && !crcTrailer(data, len(data)) ==> err == ErrInvalidCRC && nilish(res)")
